@@ -104,10 +104,13 @@ class OrderedSet(builtins.set):
     deterministic order, and ITER_REVERSED lets a harness run the adversarial (reversed) schedule."""
 
     ITER_REVERSED = [False]
+    ITER_SEED = [None]   # an integer: iterate in a pseudo-random order fixed by (seed, members) - further schedules for A8
 
     def __init__(self, items=()):
         super().__init__()
         self._order = {}
+        OrderedSet.CREATED[0] += 1
+        self._rank = OrderedSet.CREATED[0]
         for x in items:
             self.add(x)
 
@@ -143,7 +146,19 @@ class OrderedSet(builtins.set):
 
     def __iter__(self):
         vals = list(self._order.values())
+        if self.ITER_SEED[0] is not None and len(vals) > 1:
+            import random as _random
+
+            _random.Random(self.ITER_SEED[0] * 1000003 + len(vals) * 7919 + self._salt()).shuffle(vals)
+            return iter(vals)
         return iter(reversed(vals) if self.ITER_REVERSED[0] else vals)
+
+    def _salt(self):
+        # distinguishes sets of equal size without depending on object addresses: creation rank of the set
+        # (a harness that sets ITER_SEED resets OrderedSet.CREATED[0] first, so that runs are reproducible)
+        return self._rank
+
+    CREATED = [0]
 
     def copy(self):
         return OrderedSet(self)
